@@ -10,6 +10,7 @@ import time
 import openhtf as htf
 from openhtf.core import base_plugs
 from openhtf.core import diagnoses_lib
+from openhtf.core import monitors
 from openhtf.core import phase_branches
 from openhtf.core import phase_collections
 from openhtf.core import phase_descriptor
@@ -111,6 +112,7 @@ class Ctx:
     self.iid = 0
     self.aborters = []
     self.internal_slots = set()
+    self.mon_calls = {}
 
   def next_tokens(self, name):
     q = self.script.get(name)
@@ -138,6 +140,12 @@ def make_body(ctx, node, is_td_hint=None):
                           plcls={k: getattr(v, 'cid', None) for k, v in plugs.items()}))
     hook = ctx.hooks.get('body')
     try:
+      if node.get('mon') and not node['plugs']:
+        # the monitor has stored at least one sample before the body goes on (an UNSET monitor
+        # measurement would fail the phase, which is not what is examined here)
+        c0, deadline = ctx.mon_calls.get(name, 0), time.time() + 5
+        while ctx.mon_calls.get(name, 0) < c0 + 2 and time.time() < deadline:
+          time.sleep(0.001)
       return _body_rest(test, b, m, hook)
     finally:
       ctx.events.append(('body_end', name, ctx.att[name]))
@@ -309,7 +317,13 @@ def build_phase(ctx, node, plugcls, timeout_s=None):
     kw['stop_on_measurement_fail'] = True
   if timeout_s is not None:
     kw['timeout_s'] = timeout_s
-  ph = htf.PhaseOptions(**kw)(make_body(ctx, node))
+  fn = make_body(ctx, node)
+  if node.get('mon') and not node['plugs']:
+    def mon(test, _n=node['name']):
+      ctx.mon_calls[_n] = ctx.mon_calls.get(_n, 0) + 1
+      return ctx.mon_calls[_n]
+    fn = monitors.monitors('mon', mon, poll_interval_ms=1)(fn)
+  ph = htf.PhaseOptions(**kw)(fn)
   mk = node.get('mk', 'none')
   if mk == 'scalar':
     ph = htf.measures(htf.Measurement('m').in_range(
@@ -470,6 +484,8 @@ def _run_program(prog, calls, hooks=None, timeout_s=None):
   def hook(args):
     if isinstance(args.exc_value, ScriptExhausted):
       return
+    if issubclass(args.exc_type, SystemExit) and getattr(args.thread, 'name', '').endswith('_MonitorThread'):
+      return    # a killed monitor thread ends with ThreadTerminationError (a SystemExit): the normal way
     crashed.append('%s: %s' % (args.exc_type.__name__, args.exc_value))
   threading.excepthook = hook
   hang = any(v in ('hang', 'hardhang') for v in prog['plugspec']['tdmode'].values())
